@@ -151,6 +151,39 @@ fn gen_total_case(idx: u64, rng: &mut Rng, pools: &Pools) -> Case {
     }
 }
 
+/// 65 535 / 65 536 / 65 537 / 70 000 characters matched as one contiguous run (counters of adjacent matches, offsets,
+/// saturated scores): exact, prefix, postfix, substring and greedy / fuzzy through the contiguous shortcut
+fn giant_contiguous(rep: &mut Report) {
+    for n in [65_535usize, 65_536, 65_537, 70_000] {
+        for unicode in [false, true] {
+            let body: Vec<char> = (0..n).map(|i| if unicode && i == 7 { '\u{4e2d}' } else { ['a', 'b'][i % 2] }).collect();
+            let mut hay = vec!['x', ' '];
+            hay.extend(body.iter());
+            hay.extend(" y".chars());
+            let (ht, exact, nt) = (Text::new(hay), Text::new(body.clone()), Text::new(body));
+            let mut m = Matcher::default();
+            for (algo, h) in [(Algo::Exact, &exact), (Algo::Prefix, &exact), (Algo::Postfix, &exact), (Algo::Substring, &ht), (Algo::Greedy, &ht), (Algo::Fuzzy, &ht)] {
+                rep.count("c10.giant-contiguous-matches");
+                let mut idx = Vec::new();
+                let r = caught(|| (call(&mut m, algo, h.view(!unicode), nt.view(!unicode), None), call(&mut m, algo, h.view(!unicode), nt.view(!unicode), Some(&mut idx))));
+                match r {
+                    Ok((Some(a), Some(b))) if a == b && idx.len() == n => (),
+                    Ok(other) => rep.violation(
+                        "C10",
+                        "giant-contiguous-match-wrong",
+                        algo.name().into(),
+                        jobj! {"problem" => format!("{} characters matched contiguously through {}: results {:?}, {} indices", n, algo.name(), other, idx.len())},
+                    ),
+                    Err(e) => {
+                        rep.violation("C10", "panic", format!("panic@{}", e.rsplit(" @ ").next().unwrap_or("")), jobj! {"message" => e, "needle_chars" => n, "algorithm" => algo.name()});
+                        m = Matcher::default();
+                    }
+                }
+            }
+        }
+    }
+}
+
 fn all_calls(m: &mut Matcher, case: &Case, hr: bool, nr: bool) -> Result<Vec<(Option<u16>, Vec<u32>)>, String> {
     let h = case.hay.view(hr);
     let n = case.needle.view(nr);
@@ -238,6 +271,9 @@ pub fn run(opts: &Opts, pools: &Pools, rep: &mut Report) {
     install_slab_monitor();
     if opts.replay.is_none() {
         frontier_sweep(opts, rep);
+        if opts.shard % 8 == 3 {
+            giant_contiguous(rep);
+        }
     }
     let props = m_match::Props::parse("C10");
     // the long lived matcher whose history must not matter
